@@ -142,6 +142,47 @@ Definition fee_txs : list cand :=
 ''', cands="(flat_map (fun c => flat_map (fun q => (c, q) :: exact_cands c q) quotes_small) fee_txs)",
   show="(fun cq => (show_quote (snd cq) ++ \",\" ++ show_cand (fst cq))%string)",
   domain="399 small transactions (0..1 inputs, 0..2 outputs) x 25 quotes, plus for every one-input transaction and quote the three input amounts around total out + quoted fee")
+# ---- the signature-hash assembly (signaturehash.go): small transactions x every index x hash types ----
+SH = """(** transactions of 1..3 inputs / 0..3 outputs with small, pairwise distinct field values (a swapped field shows); nil and
+    empty previous scripts, empty and short txids at the signed and at other positions *)
+Definition sh_in (k : Z) : go_Input :=
+  mk_go_Input (repeat_byte 32 (z2b (16 + k))) (1000 + k) (Some [z2b (80 + k); x51]) (Some [z2b (96 + k)]) (2 + k) (4294967280 + k).
+Definition sh_in_nilscript (k : Z) : go_Input := mk_go_Input (repeat_byte 32 (z2b (16 + k))) (1000 + k) None (Some [x00]) (2 + k) (7 + k).
+Definition sh_in_emptyscript (k : Z) : go_Input := mk_go_Input (repeat_byte 32 (z2b (16 + k))) (1000 + k) (Some []) None (2 + k) (7 + k).
+Definition sh_in_notxid (k : Z) : go_Input := mk_go_Input [] (1000 + k) (Some [x51]) (Some []) (2 + k) (7 + k).
+Definition sh_in_shorttxid (k : Z) : go_Input := mk_go_Input [x01; x02; x03] (1000 + k) (Some [x52]) (Some []) (2 + k) (7 + k).
+Definition sh_out (k : Z) : go_Output := mk_go_Output (500 + k) (Some [x6a; z2b (112 + k)]).
+Definition sh_ins : list (list go_Input) :=
+  [ [sh_in 0]; [sh_in 0; sh_in 1]; [sh_in 0; sh_in 1; sh_in 2];
+    [sh_in_nilscript 0]; [sh_in 0; sh_in_nilscript 1]; [sh_in_emptyscript 0; sh_in 1];
+    [sh_in_notxid 0; sh_in 1]; [sh_in 0; sh_in_notxid 1; sh_in 2]; [sh_in_shorttxid 0]; [] ].
+Definition sh_outs : list (list go_Output) :=
+  [ []; [sh_out 0]; [sh_out 0; sh_out 1]; [sh_out 0; sh_out 1; mk_go_Output 18446744073709551615 (Some long_script)] ].
+Definition sh_txs : list cand := flat_map (fun i => map (fun o => mkCand i o 2 (3 + go_len o)) sh_outs) sh_ins.
+(** every index of a 3-input transaction, the first ones out of range, and the ends of uint32 / int32 *)
+Definition sh_idx : list Z := [0; 1; 2; 3; 4; 2147483647; 2147483648; 4294967295].
+(** 0x00..0x03, 0x41..0x43, 0x80..0x83, 0xc1..0xc3, undefined base types, every bit above the mask alone and with each base *)
+Definition sh_hts : list Z :=
+  flat_map (fun hi => map (fun lo => hi + lo) [0; 1; 2; 3; 4; 5; 18; 19; 30; 31]) [0; 32; 64; 96; 128; 160; 192; 224].
+Definition sh_hts_sig : list Z := flat_map (fun hi => map (fun lo => hi + lo) [0; 1; 2; 3; 31]) [0; 32; 64; 96; 128; 160; 192; 224].
+Record shc := mkShc { sh_c : cand; sh_i : Z; sh_ht : Z }.
+Definition sh_cands (hts : list Z) : list shc :=
+  flat_map (fun c => flat_map (fun i => map (fun h => mkShc c i h) hts) sh_idx) sh_txs.
+Definition show_shc (x : shc) : string := ("input=" ++ dec_Z (sh_i x) ++ ",hashtype=" ++ dec_Z (sh_ht x) ++ "," ++ show_cand (sh_c x))%string.
+Definition sres_outcome (r : sres) : M (bytes * bool) :=
+  match r with SOk b => Val (b, false) | SErr _ => Val ([], true) | SPanic => Panic | SFatal => NoFuel | SFuel => NoFuel end.
+Definition sh_eq : M (bytes * bool) -> M (bytes * bool) -> bool := M_eq (pair_eqb bytes_eqb Bool.eqb).
+"""
+SHDOM = "40 transactions (0..3 inputs with pairwise distinct small field values, nil / empty previous scripts, empty / short txids; 0..3 outputs) x 8 input indices (every index, out of range, the ends of int32 / uint32) x 80 hash types (0x00..0x05, 0x12, 0x13, 0x1e, 0x1f under every combination of the three high bits)"
+tx_fn("Tx_CalcInputPreimage", "Tx.CalcInputPreimage (signaturehash.go)", "[calc_input_preimage] of model/SigHash.v",
+  "(x : shc) : bool :=\n  let c := sh_c x in\n  sh_eq (Tx_CalcInputPreimage (sh_i x) (sh_ht x) (map Some (c_ins c)) (map Some (c_outs c)) (c_ver c) (c_lock c))\n        (sres_outcome (fst (calc_input_preimage (c_tx c) (Z.to_N (sh_i x)) (Z.to_N (sh_ht x))))).",
+  SH, cands="(sh_cands sh_hts)", show="show_shc", domain=SHDOM)
+tx_fn("Tx_InputIdx", "Tx.InputIdx (tx.go)", "[input_idx] of model/SigHash.v",
+  "(x : shc) : bool :=\n  let c := sh_c x in\n  M_eq (opt_eqb (fun a b : input => bytes_eqb (input_bytes true a) (input_bytes true b)))\n       (bind (Tx_InputIdx (sh_i x) (map Some (c_ins c))) (fun p => Val (option_map input_of_go p))) (Val (input_idx (c_tx c) (Z.to_N (sh_i x)))).",
+  SH, cands="(sh_cands [0])", show="show_shc", domain="40 transactions of 0..3 inputs x 8 indices (every index, out of range, the ends of int32 / uint32)")
+tx_fn("Tx_CalcInputSignatureHash", "Tx.CalcInputSignatureHash + Tx.sigStrat (signaturehash.go)", "[calc_input_signature_hash] of model/SigHash.v (the untranslated callee CalcInputPreimageLegacy, a parameter of the printed definition, is the model's [calc_input_preimage_legacy])",
+  "(x : shc) : bool :=\n  let c := sh_c x in\n  sh_eq (Tx_CalcInputSignatureHash (sh_i x) (sh_ht x) (map Some (c_ins c)) (map Some (c_outs c)) (c_ver c) (c_lock c)\n           (fun i ht => sres_outcome (fst (calc_input_preimage_legacy (c_tx c) (Z.to_N i) (Z.to_N ht)))))\n        (sres_outcome (fst (calc_input_signature_hash (c_tx c) (Z.to_N (sh_i x)) (Z.to_N (sh_ht x))))).",
+  SH, cands="(sh_cands sh_hts_sig)", show="show_shc", domain=SHDOM.replace("80 hash types (0x00..0x05, 0x12, 0x13, 0x1e, 0x1f under every combination of the three high bits)", "40 hash types (0x00..0x03 and 0x1f under every combination of the three high bits; SINGLE with an input index beyond the outputs gives the constant that is not hashed)"))
 files["LittleEndianBytes"] = '''(** Counterexample search for LittleEndianBytes (bytemanipulation.go) (printed as [LittleEndianBytes] in gen/Funcs.v) against
     [le_enc 4] of lib/Bytes.v with the length 4 (and Go's panic for a shorter length).
     NOT a proof and independent of proofs/GenFuncs_LittleEndianBytes.v: it compiles whether or not the two sides agree and
